@@ -81,6 +81,17 @@ def invariance_case(case, ctx):
             ex = int(d.reshape(len(rows), -1).max(dim=1).values.argmax())
             raise Violation("attributions-differ-" + what, "%s: %s: example %d differs by %.3g" % (desc, what, rows[ex], d.max().item()))
 
+    if case.get("override_between"):
+        # an intervening call that overrides built-in rules (documented use of additional_nonlinear_ops) must not change later calls
+        plain = lambda module, grad_input, grad_output: grad_input
+        with warnings.catch_warnings():
+            warnings.simplefilter("ignore")
+            try:
+                deep_lift_shap(model, X, args=args, batch_size=3, additional_nonlinear_ops={getattr(torch.nn, a): plain for a in nets.ACTS + ["MaxPool1d"]},
+                               **{k_: v_ for k_, v_ in base.items() if k_ != "return_references"}, **refkw(allidx))
+            except Exception:  # noqa: BLE001
+                pass
+        ctx.label("override_call_in_between")
     A1, R1 = sut(call, allidx, n * ns + 1)
     require(torch.equal(A1, A0) and torch.equal(R1, R0), "repeated-call-not-identical", desc)
     inside = False
@@ -121,7 +132,7 @@ def strategy(draw):
     subset = sorted(draw(st.sets(st.integers(0, n - 1), min_size=1, max_size=n)))
     case = {"arch": arch, "seed": draw(st.integers(0, 10 ** 6)), "X": X, "refs": refs, "target": draw(st.integers(0, arch["T"] - 1)),
             "mode": draw(st.sampled_from(["processed", "raw", "hyp"])), "batch_sizes": bs, "subset": subset,
-            "perm": list(draw(st.permutations(list(range(n)))))}
+            "perm": list(draw(st.permutations(list(range(n))))), "override_between": draw(st.integers(0, 3)) == 0}
     if draw(st.integers(0, 2)) == 0:
         case["argvals"] = [[draw(st.integers(-3, 3)), 10 * i + draw(st.integers(0, 3))] for i in range(n)]
     return case
